@@ -75,6 +75,10 @@ pub struct ReteTrace {
     pub ops: Vec<ROp>,
     /// ns the monotonic clock moves after each read, cyclic (all zero = stalled)
     pub mono_ticks: Vec<u32>,
+    /// the first rule is loaded a second time after all the others (the same GRL text again: a reloaded file);
+    /// semantically it is still one rule
+    #[serde(default)]
+    pub reload: bool,
 }
 
 pub struct ReteWorld;
@@ -176,12 +180,18 @@ fn int_of(v: Option<&FactValue>) -> Option<i64> {
 
 fn build(t: &ReteTrace, log: &Arc<Mutex<Vec<Firing>>>) -> Result<IncrementalEngine, String> {
     let mut engine = IncrementalEngine::new();
-    let text: String = t.rules.iter().enumerate().map(|(i, r)| grl_of(i, r)).collect();
+    let mut text: String = t.rules.iter().enumerate().map(|(i, r)| grl_of(i, r)).collect();
+    let reload = t.reload && !t.rules.is_empty();
+    if reload {
+        text.push_str(&grl_of(0, &t.rules[0]));
+    }
     let parsed = GRLParser::parse_rules(&text).map_err(|e| format!("GRL parse: {e}\n{text}"))?;
-    if parsed.len() != t.rules.len() {
+    if parsed.len() != t.rules.len() + reload as usize {
         return Err(format!("parser returned {} rules for {}", parsed.len(), t.rules.len()));
     }
     for (i, rule) in parsed.into_iter().enumerate() {
+        // the reloaded copy of the first rule is the first rule
+        let i = if i == t.rules.len() { 0 } else { i };
         let converted: TypedReteUlRule = GrlReteLoader::verif_convert_rule(rule).map_err(|e| format!("convert: {e}"))?;
         let ty = tname(t.rules[i].ty).to_string();
         let inner = converted.action.clone();
@@ -649,7 +659,10 @@ impl World for ReteWorld {
             1 => vec![0, 0, 0, 7],
             _ => vec![50],
         };
-        ReteTrace { hash_seed, alt_hash_seeds, rules, ops, mono_ticks }
+        // one run in ten with three or more rules over two or more types: the first rule (if no-loop) is loaded
+        // again after the others
+        let reload = rules.len() >= 3 && rules[0].no_loop && rules.iter().any(|r| r.ty != rules[0].ty) && rng.chance(1, 5);
+        ReteTrace { hash_seed, alt_hash_seeds, rules, ops, mono_ticks, reload }
     }
 
     fn hash_seed(&self, t: &ReteTrace) -> u64 {
@@ -665,6 +678,9 @@ impl World for ReteWorld {
             obs.count("fault.clock_stalled");
         }
         obs.fp_str(&serde_json::to_string(t).unwrap_or_default());
+        if t.reload {
+            obs.count("probe.first_rule_loaded_a_second_time");
+        }
         run_pass(t, obs, true)?;
         // the same history under further hash seeds must satisfy the same clauses
         for (k, hs) in t.alt_hash_seeds.iter().enumerate() {
@@ -789,6 +805,9 @@ impl World for ReteWorld {
         }
         if t.hash_seed != 1 {
             out.push(ReteTrace { hash_seed: 1, ..t.clone() });
+        }
+        if t.reload {
+            out.push(ReteTrace { reload: false, ..t.clone() });
         }
         out
     }
